@@ -22,12 +22,17 @@ from common import clist, cstr, cbool, cpair
 PROP = 'C10'
 COQ_DIR = 'Args'
 ASSUMPTIONS = [
-    'the value of a reference (path of the producer working directory / data file, contents of the referenced '
-    'file without trailing newlines) is computed by the harness from the instance layout and given to the model; '
-    'DataReference.resolve is compared with it through the substituted command line, not modelled',
+    'the value of a reference is computed by the harness from the instance layout (r_value) and given to the model of '
+    'resolveArguments; that every such value and spelling is the one Args.ValueModel (model of absoluteReference / '
+    'relativeReference / DataReference.resolve) computes from the reference and the walked file system is checked inside '
+    'Coq for every distinct reference of the run (check_dref); the real DataReference objects are compared with that model '
+    'on a separate pool (check_value: every file part x method x producer of the pool)',
+    'ValueModel does not cover loopref / loopoutput, repeating producers (stream stdout), glob patterns or ".." in file '
+    'parts, symbolic links, non-ASCII file contents',
     'argument strings come with the tokenisation of the code\'s own recogniser (regular expression of '
     'FlowIR.discover_reference_strings); every generated string is checked against that expression',
-    'literal text holds no %(variable)s references and no [index] accesses (FlowIR.fill_in is then the identity)',
+    'literal text holds no %(variable)s references and no [index] accesses (FlowIR.fill_in is then the identity); on an '
+    'instantiated experiment commandDetails["arguments"] is already interpolated, so resolveArguments never sees %(variable)s',
     'only ref / output / copy references are generated (loopref / loopoutput need DoWhile placeholders); copy '
     'references are declared but never written in the arguments; no reference is declared twice',
     'instance paths are rewritten to /I before comparing (they contain no colon, so no spelling)',
@@ -542,6 +547,12 @@ def judge(ctx, case, obs):
         ctx.count('class_' + c)
     if not cls:
         ctx.count('outside_all_finding_classes')
+    # (Python mirror of the extra hypotheses of C10_unused / C10_unresolved; the Coq checkers decide)
+    subs = [r for r in dec if r['method'] in SUBST]
+    if all(sum(1 for r in subs if t in (r_abs(r), r_rel(r))) <= 1 for k, t in case['pieces'] if k == 'T'):
+        ctx.count('no_token_spells_two_references')
+    if all(':' not in t for k, t in case['pieces'] if k == 'L') and all(':' not in r_value(r) for r in subs):
+        ctx.count('every_colon_belongs_to_a_token')
     # overlap statistics
     sp = [r_rel(r).rsplit(':', 1)[0] for r in dec if r['method'] in SUBST]
     if any(a != b and a.endswith(b) for a in sp for b in sp):
